@@ -145,6 +145,9 @@ func (ctx *Context) applyAtRecursively(pos int) int {
 			ctx.keep = oldKeep
 		}
 	}
+	// If the action budget was exhausted, drop the remaining actions so that
+	// they cannot leak into the next position or the next call.
+	ctx.stack = ctx.stack[:0]
 
 	return next
 }
